@@ -43,5 +43,6 @@ def print_anchors(args=None):
         ]
 
     parser.use(lambda p: p.core.ruler.push("filter", _filter_plugin))
-    text = parser.render(args.input.read())
+    # the standard input stream is not opened as utf-8-sig, and keeps a byte order mark
+    text = parser.render(args.input.read().removeprefix("\ufeff"))
     args.output.write(text)
